@@ -223,6 +223,11 @@ def has_unit_group(rs):
     return False
 
 
+def exact_unit_groups(ex):
+    """how many groups have a count of exactly 1, anywhere in the exact structure"""
+    return sum((1 if c == 1 else 0) + exact_unit_groups(f) for c, f in ex if not G.is_key(f))
+
+
 def check_formulas(run: Run, tname, ref, tbl, prefix, items):
     """items: [(source, Formula)]"""
     import periodictable.formulas as F
@@ -310,8 +315,16 @@ def check_formulas(run: Run, tname, ref, tbl, prefix, items):
         elif G.struct_matches(want_same, p[1]):
             pass
         elif G.struct_matches(want_norm, p[1]):
+            # where the unit group comes from is part of the finding's identity: structures and arithmetic may
+            # hold a group with count 1 (exactly, or 1.0000001 printing as 1); the mixers never build a group with
+            # count exactly 1 (the least abundant component is spliced in flat)
+            if str(source).startswith("mix_by"):
+                inherited = getattr(f, "_ptv_unit_groups", None)
+                where = "mixture-new" if inherited is not None and exact_unit_groups(ex) > inherited else "mixture-inherited"
+            else:
+                where = "structure"
             run.violation("a group whose multiplier prints as 1 parses back spliced into its parent: %r" % s_py,
-                          inp, kind="unit-group")
+                          inp, kind="unit-group", where=where)
         else:
             run.violation("formula(str(f)).structure = %s differs from f.structure rounded to six digits = %s"
                           % (G.show_struct(p[1]), G.show_struct(want_same)), inp, kind="roundtrip-differs",
@@ -376,6 +389,7 @@ def gen_formulas(rng, ref, tbl, n, maxdepth):
                 for _k in range(rng.randint(2, 4)):
                     parts += [rng.choice(base), 10 ** rng.uniform(-6, 6) if rng.random() < 0.7 else rng.randint(1, 9)]
                 f = mix_by_weight(*parts)
+                f._ptv_unit_groups = sum(exact_unit_groups(exact(G.struct_keys(c.structure))) for c in parts[0::2])
                 src = "mix_by_weight"
             elif r < 0.97:
                 parts = []
@@ -383,6 +397,7 @@ def gen_formulas(rng, ref, tbl, n, maxdepth):
                     g = formula(rng.choice(base), density=rng.uniform(0.5, 20))
                     parts += [g, 10 ** rng.uniform(-6, 6) if rng.random() < 0.7 else rng.randint(1, 9)]
                 f = mix_by_volume(*parts)
+                f._ptv_unit_groups = sum(exact_unit_groups(exact(G.struct_keys(c.structure))) for c in parts[0::2])
                 src = "mix_by_volume"
             else:
                 nm = rng.choice(["water", "salt", "my alloy", "x", "H2O", "(Fe)", "Mohr's salt", "Wood's metal",
